@@ -124,6 +124,20 @@ def conjoin (h1 h2 : HRG) : Except Err (Label × List Rule) := do
   let rules ← pairs.mapM (fun (r1, r2) => conjoinRules m r1 r2)
   pure (start, rules)
 
+/-! ### well-formedness used by the derivation-correspondence theorem (C17b) -/
+
+/-- the nonterminal edges of a rule, in the rule's edge order (the list `conjoinRules` sorts and pairs) -/
+def ntEdges (r : Rule) : List Edge := r.edges.filter (!·.label.terminal)
+
+/-- no repeated id -/
+def nodupIds : List Id → Bool
+  | [] => true
+  | a :: l => !l.contains a && nodupIds l
+
+/-- the only well-formedness the derivation correspondence needs: within every rule the ids of the
+nonterminal edges are pairwise distinct (the Python `Graph` enforces unique edge ids) -/
+def wfHRG (h : HRG) : Bool := h.rules.all (fun r => nodupIds ((ntEdges r).map (·.id)))
+
 /-! ### protocol -/
 
 def parseS : Parser String := do
@@ -188,6 +202,9 @@ def handle : List String → Option (Except String String)
   | "C17.unique" :: rest => some do
       let (n, ns) ← Tok.run (do let n ← parseS; let ns ← Tok.list parseS; pure (n, ns)) rest
       pure (showS (uniqueName n ns))
+  | "C17.wf" :: rest => some do
+      let h ← Tok.run parseHRG rest
+      pure (showBool (wfHRG h))
   | _ => none
 
 end Fggs.Cj
